@@ -1,4 +1,5 @@
 import Bcder.Props.C01
+import Bcder.Props.C01b
 #print axioms Bcder.Props.C01.generic_total
 #print axioms Bcder.Props.C01.generic_never_panics
 #print axioms Bcder.Props.C01.nested_never_panics_definite
@@ -8,3 +9,15 @@ import Bcder.Props.C01
 #print axioms Bcder.Props.C01.leaves_run
 #print axioms Bcder.Props.C01.stepG0_err_panic
 #print axioms Bcder.Props.C01.parseValue_consumes
+#print axioms Bcder.Props.C01b.int_total
+#print axioms Bcder.Props.C01b.bool_total
+#print axioms Bcder.Props.C01b.null_total
+#print axioms Bcder.Props.C01b.integer_total
+#print axioms Bcder.Props.C01b.unsigned_total
+#print axioms Bcder.Props.C01b.oid_total
+#print axioms Bcder.Props.C01b.bits_total
+#print axioms Bcder.Props.C01b.octets_prim_total
+#print axioms Bcder.Props.C01b.octets_cons_der_total
+#print axioms Bcder.Props.C01b.octets_cons_ber_total
+#print axioms Bcder.Props.C01b.chars_total
+#print axioms Bcder.Props.C01b.skip_total
